@@ -135,9 +135,12 @@ impl ParsedTemplate {
                 .for_each(|template| template.extend_from_slice(&input[group..end]));
         }
 
-        for template in &mut result {
-            if template.is_empty() {
-                template.push(b'/');
+        // Only a completely empty template becomes "/": a nested group may expand to nothing.
+        if start == 0 && end == input.len() {
+            for template in &mut result {
+                if template.is_empty() {
+                    template.push(b'/');
+                }
             }
         }
 
